@@ -307,7 +307,7 @@ def _populate_expr_impl_map(extend_context: bool) -> Dict[int, Dict[str, Callabl
         "median": lambda x: x.median(),
         "min": lambda x: x.min(),
         "month": lambda x: x.month(),
-        "nunique": lambda x: x.n_unique(),
+        "nunique": lambda x: x.drop_nulls().n_unique(),
         "quarter": lambda x: x.quarter(),
         "rank": lambda x: x.rank(),
         "round": lambda x: x.round(decimals=0),
